@@ -184,11 +184,13 @@ pub fn shipped_drawings() -> Vec<(String, String)> {
   out
 }
 
-const STYLES: [Style; 4] = [
-  Style { wide_first_data_column: false, wide_all: false, name_box: 0, merged_hit_policy_cell: false },
-  Style { wide_first_data_column: true, wide_all: false, name_box: 1, merged_hit_policy_cell: false },
-  Style { wide_first_data_column: false, wide_all: true, name_box: 2, merged_hit_policy_cell: true },
-  Style { wide_first_data_column: true, wide_all: true, name_box: 0, merged_hit_policy_cell: true },
+const STYLES: [Style; 5] = [
+  Style { wide_first_data_column: false, wide_all: false, name_box: 0, merged_hit_policy_cell: false, merge_equal_entries: false },
+  Style { wide_first_data_column: true, wide_all: false, name_box: 1, merged_hit_policy_cell: false, merge_equal_entries: false },
+  Style { wide_first_data_column: false, wide_all: true, name_box: 2, merged_hit_policy_cell: true, merge_equal_entries: false },
+  Style { wide_first_data_column: true, wide_all: true, name_box: 0, merged_hit_policy_cell: true, merge_equal_entries: false },
+  // equal entries of consecutive rules drawn as one merged cell (only used with the source variant that has such entries)
+  Style { wide_first_data_column: false, wide_all: false, name_box: 0, merged_hit_policy_cell: false, merge_equal_entries: true },
 ];
 
 fn l(s: &str) -> Vec<String> {
@@ -221,9 +223,13 @@ fn source(ni: usize, no: usize, na: usize, nr: usize, marker: &str, rows: bool, 
     annotations: (0..na).map(|k| if multi == 5 && k == 0 { l("Remark\ntext") } else { l(&format!("Ann{}", k + 1)) }).collect(),
     rules: (0..nr)
       .map(|r| {
+        // variants 9, 10, 11: the rules share their input entries / their output entries / both pairwise (drawn as separate
+        // or as merged cells: merged on one side of the double line only, the line carries a one-sided junction)
+        let ri = if multi == 9 || multi == 11 { r / 2 } else { r };
+        let ro = if multi == 10 || multi == 11 { r / 2 } else { r };
         (
-          (0..ni).map(|k| if multi == 6 && r == 0 && k == 0 { l("<5,\n>7") } else { l(IN_ENTRIES[(r * 2 + k) % IN_ENTRIES.len()]) }).collect(),
-          (0..no).map(|k| if multi == 7 && r == 0 && k == 0 { l("1 +\n1") } else { l(OUT_ENTRIES[(r + k * 2) % OUT_ENTRIES.len()]) }).collect(),
+          (0..ni).map(|k| if multi == 6 && r == 0 && k == 0 { l("<5,\n>7") } else { l(IN_ENTRIES[(ri * 2 + k) % IN_ENTRIES.len()]) }).collect(),
+          (0..no).map(|k| if multi == 7 && r == 0 && k == 0 { l("1 +\n1") } else { l(OUT_ENTRIES[(ro + k * 2) % OUT_ENTRIES.len()]) }).collect(),
           (0..na).map(|k| if multi == 8 && r == 0 && k == 0 { l("two\nlines") } else { l(ANN_ENTRIES[(r + k) % ANN_ENTRIES.len()]) }).collect(),
         )
       })
@@ -444,7 +450,7 @@ fn calibrate(run: &Run) -> (u64, u64) {
       }
     };
     let src = src_of_table(&d1);
-    let style = Style { wide_first_data_column: false, wide_all: false, name_box: 0, merged_hit_policy_cell: false };
+    let style = Style { wide_first_data_column: false, wide_all: false, name_box: 0, merged_hit_policy_cell: false, merge_equal_entries: false };
     match render(&src, &style).and_then(|t2| dmntk_recognizer::build(&t2).map_err(|e| format!("{}: {}", e, t2))) {
       Ok(d2) => {
         if canon_of_table(&d1) != canon_of_table(&d2) {
@@ -600,7 +606,7 @@ pub fn run() {
               if *no == 1 && label {
                 continue;
               }
-              for multi in 0..=8usize {
+              for multi in 0..=11usize {
                 // a two-line cell needs its class to exist
                 if (multi == 2 || multi == 4) && !values {
                   continue;
@@ -611,8 +617,14 @@ pub fn run() {
                 if (multi == 5 || multi == 8) && *na == 0 {
                   continue;
                 }
+                if multi >= 9 && *nr < 2 {
+                  continue;
+                }
                 let t = source(*ni, *no, *na, *nr, marker, rows, name, values, label, multi);
                 for (sk, style) in STYLES.iter().enumerate() {
+                  if style.merge_equal_entries && multi < 9 {
+                    continue;
+                  }
                   // name box variants only matter with a name; the merged hit policy cell only for columns with values
                   if !name && sk > 0 && !(style.wide_all || style.wide_first_data_column) {
                     continue;
@@ -634,7 +646,11 @@ pub fn run() {
                       5 => "two-line-annotation-name",
                       6 => "two-line-input-entry",
                       7 => "two-line-output-entry",
-                      _ => "two-line-annotation-entry",
+                      8 => "two-line-annotation-entry",
+                      9 if style.merge_equal_entries => "equal-input-entries-of-consecutive-rules-merged",
+                      10 if style.merge_equal_entries => "equal-output-entries-of-consecutive-rules-merged",
+                      11 if style.merge_equal_entries => "equal-entries-of-consecutive-rules-merged",
+                      _ => "equal-entries-of-consecutive-rules",
                     }
                   );
                   // evaluation equivalence on one style and marker rotation (texts are the same across styles)
